@@ -138,7 +138,18 @@ def check_config(res, cfg, keep=None):
     T, probs, lo, hi = cfg["T"], cfg["probs"], cfg["lo"], cfg["hi"]
     asked = []
     fp, base = make_fp(cfg, asked)
-    params = {N.FP: fp, N.PROBS: list(probs), N.MOTIF_SIZES: list(range(2, T + 2)), N.LOW_HIGH_DEGREE_BOUND: (lo, hi)}
+    # the probability vector as the caller may hold it: a list, a tuple or a numpy array (which the loader must not write to)
+    pform = ["list", "list", "tuple", "ndarray"][int(sum(probs) * 1e6 + T + lo + hi) % 4] if cfg.get("probs_form") is None else cfg["probs_form"]
+    if pform == "ndarray":
+        import numpy as np
+        probs_arg = np.array(probs, dtype=float)
+        res.count("probs_given_as_numpy_array")
+    elif pform == "tuple":
+        probs_arg = tuple(probs)
+    else:
+        probs_arg = list(probs)
+    keep_probs = probs_arg
+    params = {N.FP: fp, N.PROBS: probs_arg, N.MOTIF_SIZES: list(range(2, T + 2)), N.LOW_HIGH_DEGREE_BOUND: (lo, hi)}
     if cfg["loader"] == "delta":
         params[N.TARGET_K] = cfg["target"]
         cls, typ = gcmpy.JointDegreeDelta, "delta"
@@ -169,6 +180,10 @@ def check_config(res, cfg, keep=None):
     if not isinstance(jdd, dict) or not jdd:
         res.violate("jdd-not-a-nonempty-dict", got=repr(jdd)[:200], cfg=cfg)
         return False
+    if [float(x) for x in keep_probs] != [float(x) for x in probs]:
+        # not a clause of this property by itself (the law is); recorded, and the law is re-checked below by building a second
+        # loader from the caller's (possibly altered) vector only if it still is a probability vector - here: counted
+        res.count("loads_that_altered_the_caller's_probability_vector")
     if keep is not None:
         keep["obj"], keep["jdd"] = obj, dict(jdd)
     if any(p == 0.0 for p in probs):
